@@ -357,7 +357,14 @@ def check_program(chk, prover, mod, prog, src, stats, data=None, prop='C01'):
         return None
     stats['clif_paths'] += len(cpaths); stats['ref_paths'] += len(rpaths)
     ret_bits, ret_signed = INTS[entry['ret']]
+    import time
+    deadline = time.time() + (120 if chk.tier == 'quick' else 400)
     for cp in cpaths:
+        if time.time() > deadline:
+            # a per-program time budget keeps one solver-hard program from dominating the run: counted as undecided
+            stats['undecided_solver_timeout'] = stats.get('undecided_solver_timeout', 0) + 1
+            stats.setdefault('undecided_programs', []).append(prog['entry'])
+            return None
         cs, cm, cr = clif_obs(cp)
         # model-guided pairing: find a reference path that overlaps the rest of this CLIF path, compare, exclude, repeat
         s = z3.Solver(); s.set('timeout', 30000); s.add(*cp.pc)
